@@ -68,6 +68,12 @@ const (
 	ScopeImportMap         = "script-type-importmap"
 	ScopeTypedMacroTag     = "typed-macro-tag"
 	ScopeRawTextTagQuote   = "rawtext-tag-quote"
+	ScopeRawLabelled       = "macro-raw-labelled"
+	ScopeTagNameWhole      = "tag-name-whole"
+	ScopeDupType           = "script-duplicate-type"
+	ScopeRegexHole         = "js-regex-hole"
+	ScopeMDCodeSpan        = "md-code-span"
+	ScopeBytesHTML         = "bytes-in-html"
 )
 
 // Gen generates documents.
@@ -135,6 +141,10 @@ func (g *Gen) hole(class, note string, restrict ...string) string {
 		return "Lit"
 	}
 	t := g.typeFor(class)
+	if class == CText && strings.HasPrefix(note, "html.text") && !g.noVia && g.R.Intn(12) == 0 && !g.avoid(ScopeBytesHTML) {
+		t = TBytes
+		g.feature(ScopeBytesHTML)
+	}
 	i := len(g.doc.Holes)
 	h := Hole{Var: fmt.Sprintf("v%d", i), Type: t, Class: class, Via: "direct", Restrict: restrict, Note: note}
 	switch class {
@@ -155,7 +165,7 @@ func (g *Gen) hole(class, note string, restrict ...string) string {
 	}
 	src := "{{ " + h.Var + " }}"
 	wholeSlot := class == CJSExpr || class == CCSSVal || class == CJSONV || class == CMD || (class == CText && strings.HasPrefix(note, "html.text"))
-	composite := t == TStrs || t == TMap || t == TRec || t == TAnys
+	composite := t == TStrs || t == TMap || t == TRec || t == TAnys || t == TBytes
 	if !g.noVia {
 		k := g.R.Intn(12)
 		if composite && k < 4 {
@@ -190,7 +200,7 @@ func (g *Gen) hole(class, note string, restrict ...string) string {
 			name := g.macro(t, "", true)
 			h.Via = "import"
 			src = "{{ " + name + "(" + h.Var + ") }}"
-		case k == 4 && wholeSlot: // rendered partial of the same format as the slot
+		case k == 4 && wholeSlot && t != TBytes: // rendered partial of the same format as the slot
 			ext := map[string]string{CJSExpr: "js", CCSSVal: "css", CJSONV: "json", CMD: "md", CText: "html"}[class]
 			if class == CText && !g.avoid(ScopeRenderOtherFormat) && g.R.Intn(2) == 0 {
 				ext = "txt"
@@ -212,10 +222,11 @@ func (g *Gen) hole(class, note string, restrict ...string) string {
 			// global whose first reference is inside a function literal ignores the value
 			// passed to Run (subject of C17).
 			h.Via = "using"
-			src = "{% var _ = " + h.Var + " %}{% show itea; using %}{{ " + h.Var + " }}{% end using %}"
+			slotFormat := map[string]string{CJSExpr: "js", CCSSVal: "css", CJSONV: "json", CMD: "md", CText: "html"}[class]
+			src = "{% var _ = " + h.Var + " %}{% show itea; using %}" + g.blockPrefix(slotFormat) + "{{ " + h.Var + " }}{% end using %}"
 		case k == 7 && wholeSlot && !composite: // using with an explicit string type: the body is text, the string is escaped at the show
 			h.Via = "using:string"
-			src = "{% var _ = " + h.Var + " %}{% show itea; using string %}{{ " + h.Var + " }}{% end using %}"
+			src = "{% var _ = " + h.Var + " %}{% show itea; using string %}" + g.blockPrefix("string") + "{{ " + h.Var + " }}{% end using %}"
 		}
 	}
 	g.doc.Holes = append(g.doc.Holes, h)
@@ -256,13 +267,57 @@ func (g *Gen) macro(t, result string, imported bool) string {
 			body = g.pick("\"pre {{ p }}\"", "[{{ p }}, \"a\\\"b\"]", "{\"k\": {{ p }}}")
 		}
 	}
-	decl += " %}" + body + "{% end macro %}"
+	bodyFormat := result
+	if bodyFormat == "" {
+		bodyFormat = g.format
+	}
+	if bodyFormat == "markdown" {
+		bodyFormat = "md"
+	}
+	decl += " %}" + g.blockPrefix(bodyFormat) + body + "{% end macro %}"
 	if imported {
 		g.libSrc = append(g.libSrc, decl)
 	} else {
 		g.macroSrc = append(g.macroSrc, decl)
 	}
 	return name
+}
+
+// blockPrefix returns, one time in three, a statement closed by {% end %} (raw,
+// if, for, switch, also labeled) around a filler that is valid at the start of a
+// value of the given format. It is placed in macro and using bodies before the
+// show: every such statement must leave the context of the body as it was.
+func (g *Gen) blockPrefix(format string) string {
+	if g.R.Intn(3) != 0 {
+		return ""
+	}
+	filler := "r "
+	switch format {
+	case "js", "css", "json":
+		filler = " " // code is shown in comments, url() and strings too: only white space is valid everywhere
+	}
+	k := g.R.Intn(6)
+	if (k == 0 || k == 3 || k == 5) && g.avoid(ScopeRawLabelled) {
+		k = 1
+	}
+	if k == 0 || k == 3 || k == 5 {
+		g.feature(ScopeRawLabelled)
+	}
+	n := fmt.Sprint(g.n())
+	switch k {
+	case 0:
+		return "{% raw %}" + filler + "{% end raw %}"
+	case 1:
+		return "{% if true %}" + filler + "{% end if %}"
+	case 2:
+		return "{% for i := 0; i < 1; i++ %}" + filler + "{% end for %}"
+	case 3:
+		return "{% L" + n + ": for i := 0; i < 1; i++ %}" + filler + "{% break L" + n + " %}{% end for %}"
+	case 4:
+		return "{% switch %}{% case true %}" + filler + "{% end switch %}"
+	default:
+		return "{% L" + n + ": switch %}{% case true %}" + filler + "{% break L" + n + " %}{% end switch %}"
+	}
 }
 
 // expand replaces @X@-style placeholders in a pattern by holes.
@@ -337,6 +392,7 @@ var jsPatterns = []pattern{
 	{src: "var tl%d = `say \"hi`; var z%d = \"@S@\";", scope: ScopeTemplateQuote},
 	{src: "var tl%d = `v: @X@ w`;", scope: ScopeTemplateHole, restrict: []string{RNoBacktick}},
 	{src: "var u%d = \"http://example.com/@S@\";"},
+	{src: "var rh%d = /a@X@b/;", scope: ScopeRegexHole},
 	{src: "var e%d = \"a\\\"b @S@\";"},
 	{src: "var e%d = 'it\\'s @S@';"},
 	{src: "var e%d = \"c:\\\\dir\\\\@S@\";"},
@@ -465,6 +521,7 @@ var mdPatterns = []pattern{
 	{src: "Text.\n\n\tline1\n\t@C@\n\tline3\n\nAfter.\n\n"},
 	{src: "Static *emphasis*, `code span`, and a [link](http://example.com/).\n\n"},
 	{src: "---\n\n"},
+	{src: "Inline `a @T@ b` code.\n\n", scope: ScopeMDCodeSpan},
 }
 
 // Markdown returns Markdown blocks with holes.
@@ -603,6 +660,14 @@ func (g *Gen) htmlFragment() string {
 			lv = "{{ " + g.doc.Holes[len(g.doc.Holes)-1].Var + " }}"
 			g.doc.Holes[len(g.doc.Holes)-1].Via = "direct"
 		}
+		if g.R.Intn(3) == 0 && !g.avoid(ScopeTagNameWhole) {
+			// the whole tag name is a value (it must start with a letter to be a tag at all)
+			g.feature(ScopeTagNameWhole)
+			h := &g.doc.Holes[len(g.doc.Holes)-1]
+			h.Restrict = append(h.Restrict, RLetterFirst)
+			h.Note = "html.tagname.whole"
+			return "<" + lv + " class=c title=\"" + g.hole(CText, "html.attr.quoted") + "\">body</div>"
+		}
 		return "<h" + lv + " class=c>head</h1>"
 	case 16: // event handler attribute
 		ev := eventAttrs[g.R.Intn(len(eventAttrs))]
@@ -710,6 +775,13 @@ func (g *Gen) scriptElement() string {
 		g.feature(ScopeScriptTypeJS)
 		typ := g.pick("application/javascript", "text/ecmascript", "application/x-javascript", "MODULE", " module ", "text/javascript1.5", "application/ecmascript")
 		return "<script type=\"" + typ + "\">" + g.JS(1+g.R.Intn(3)) + end
+	case k == 15 && g.R.Intn(2) == 0 && !g.avoid(ScopeDupType):
+		// an HTML tokenizer drops an attribute that duplicates an earlier one
+		g.feature(ScopeDupType)
+		if g.R.Intn(2) == 0 {
+			return "<script type=\"" + g.pick("text/javascript", "module", "") + "\" type=\"" + g.pick("text/plain", "application/ld+json", "text/template") + "\">" + g.JS(1+g.R.Intn(2)) + end
+		}
+		return "<script type=\"text/plain\" type=\"" + g.pick("text/javascript", "module") + "\"><b>" + g.hole(CText, "html.script.datablock") + "</b>" + end
 	default:
 		return "<script>" + g.JS(1) + "</script><script>" + g.JS(1) + "</script>"
 	}
